@@ -65,7 +65,7 @@ type knownFinding struct {
 }
 
 func loadKnown(root, prop string) []knownFinding {
-	f, err := os.Open(filepath.Join(root, "known_findings.jsonl"))
+	f, err := os.Open(filepath.Join(root, "known_findings.txt"))
 	if err != nil {
 		return nil
 	}
